@@ -309,9 +309,9 @@ Definition list_eval (f : aexp -> dt aval) : list aexp -> dt (list aval) :=
 Definition block (f : astmt -> store -> (store -> dt unit) -> dt unit) : list astmt -> store -> (store -> dt unit) -> dt unit :=
   fix go (l : list astmt) (st : store) (k : store -> dt unit) : dt unit :=
     match l with [] => k st | s :: t => f s st (fun st' => go t st' k) end.
-(* g on every item, in order, stopping at the first that does not return; then k *)
-Fixpoint each_then {A} (g : aval -> dt unit) (items : list aval) (k : dt A) : dt A :=
-  match items with [] => k | it :: rest => tbind (g it) (fun _ => each_then g rest k) end.
+(* g on every item, in order, stopping at the first that does not return; then k.  g receives what follows it *)
+Fixpoint each_then {A} (g : aval -> dt A -> dt A) (items : list aval) (k : dt A) : dt A :=
+  match items with [] => k | it :: rest => g it (each_then g rest k) end.
 (* the same on outcomes *)
 Fixpoint each (g : aval -> out unit) (items : list aval) : out unit :=
   match items with [] => OK tt | it :: rest => obind (g it) (fun _ => each g rest) end.
@@ -361,7 +361,7 @@ Fixpoint exec (s : astmt) (st : store) (k : store -> dt unit) : dt unit :=
         match v with
         | DList items =>
             let st0 := poison (xs ++ assigned_block body) st in
-            each_then (fun it => tbind (sbind xs it st0) (fun st1 => block exec body st1 (fun _ => Ret tt))) items (k st0)
+            each_then (fun it rest => tbind (sbind xs it st0) (fun st1 => block exec body st1 (fun _ => rest))) items (k st0)
         | _ => Unm end)
   | CRaise e => Exn e
   end.
